@@ -242,6 +242,126 @@ def slow_cycle_game(rng):
     return finish(rewards, players, xtl, [win], {"family": "slow_cycle", "gamma": str(gam)})
 
 
+def _order_sensitive_rows():
+    """probability rows (hundredths) whose FLOATING-POINT sum depends on the order of the terms"""
+    import itertools
+    import random as _r
+    r = _r.Random(12345)
+    out = []
+    while len(out) < 40:
+        k = r.choice([3, 3, 4])
+        cuts = sorted(r.sample(range(1, 100), k - 1))
+        parts = [b - a for a, b in zip([0] + cuts, cuts + [100])]
+        sums = set()
+        for perm in itertools.permutations(parts):
+            s = 0
+            for x in perm:
+                s += x / 100
+            sums.add(s)
+        if len(sums) > 1 and max(sums) > 1:
+            out.append(parts)
+    return out
+
+
+def _non_idempotent_rows():
+    """rows (hundredths, in a fixed order) whose float sum is not 1 and for which dividing by the sum
+    does not yet give a row that sums to 1 (normalising twice differs from normalising once)"""
+    import random as _r
+    r = _r.Random(54321)
+    out = [[57, 13, 1, 29]]
+    tries = 0
+    while len(out) < 25 and tries < 200000:
+        tries += 1
+        k = r.choice([3, 4, 4, 5])
+        cuts = sorted(r.sample(range(1, 100), k - 1))
+        parts = [b - a for a, b in zip([0] + cuts, cuts + [100])]
+        r.shuffle(parts)
+        row = [x / 100 for x in parts]
+        tot = sum(row)
+        if tot == 1:
+            continue
+        row1 = [x / tot for x in row]
+        tot1 = sum(row1)
+        if tot1 != 1 and [x / tot1 for x in row1] != row1:
+            out.append(parts)
+    return out
+
+
+ORDER_SENSITIVE_ROWS = _order_sensitive_rows()
+NON_IDEMPOTENT_ROWS = _non_idempotent_rows()
+
+
+def decimal_sum_game(rng):
+    """a probabilistic state whose probabilities are hundredths with an order-dependent float sum
+    (e.g. 0.1/0.34/0.56: some orders add up to 1.0000000000000002)"""
+    if rng.random() < 0.5:
+        parts = list(rng.choice(ORDER_SENSITIVE_ROWS))
+        rng.shuffle(parts)
+    else:
+        parts = list(rng.choice(NON_IDEMPOTENT_ROWS))      # order matters: keep it
+    k = len(parts)
+    kind = rng.choice([None, P1, P2])
+    players, xtl, rewards = [], [], []
+    base = 0
+    if kind is not None:
+        players.append(kind)
+        rewards.append(0)
+        xtl.append([("a", 1)])
+        base = 1
+    S = base
+    succ = [S + 1 + j for j in range(k)]
+    lose, win = S + 1 + k, S + 2 + k
+    players.append(PR)
+    rewards.append(rng.choice([0, 2]))
+    xtl.append([(Fr(a, 100), t_) for a, t_ in zip(parts, succ)])
+    for j in range(k):
+        players.append(PR)
+        rewards.append(rng.choice([0, 1, 3]))
+        q = rng.choice([Fr(1), Fr(1, 2), Fr(0)])
+        xtl.append([(Fr(1), win)] if q == 1 else [(Fr(1), lose)] if q == 0 else [(q, win), (1 - q, lose)])
+    players += [PR, PR]
+    rewards += [0, 0]
+    xtl += [[(Fr(1), lose)], [(Fr(1), win)]]
+    return finish(rewards, players, xtl, [win], {"family": "decimal_sum"})
+
+
+def multi_final_game(rng):
+    """several final states, one of them NOT absorbing, owned by any kind of state, with a path to
+    another final state and an exit to a dead sink; the initial state is that final state or leads
+    to it.  Finals listed in either order, possibly repeated."""
+    k = rng.choice([P1, P2, PR])
+    first_is_final = rng.random() < 0.4
+    players, xtl, rewards = [], [], []
+    # layout: [0 = entry (unless first_is_final)] f1, mid, f2 (absorbing), sink
+    base = 0
+    if not first_is_final:
+        e = rng.choice([P1, P2, PR])
+        players.append(e)
+        rewards.append(rng.choice([0, 1]))
+        xtl.append([(Fr(1), 1)] if e == PR else [("go", 1)])
+        base = 1
+    f1, mid, f2, sink = base, base + 1, base + 2, base + 3
+    players.append(k)
+    rewards.append(rng.choice([0, 2]))
+    if k == PR:
+        xtl.append([(Fr(1, 2), mid), (Fr(1, 2), sink)])
+    else:
+        row = [("stay", mid), ("leave", sink)]
+        if rng.random() < 0.5:
+            row.reverse()
+        xtl.append(row)
+    players.append(rng.choice([P1, P2, PR]))
+    rewards.append(1)
+    xtl.append([(Fr(1), f2)] if players[-1] == PR else [("on", f2)])
+    players += [PR, PR]
+    rewards += [0, 0]
+    xtl += [[(Fr(1), f2)], [(Fr(1), sink)]]
+    finals = [f1, f2] if rng.random() < 0.5 else [f2, f1]
+    if rng.random() < 0.2:
+        finals.append(finals[0])
+    return finish(rewards, players, xtl, finals, {"family": "multi_final", "extra_finals": 1})
+
+
 def layered_tie_game(rng):
     """acyclic layered game rich in reachability TIES and reward DIFFERENCES: player states in
     layers 0..1 (or 0..2) choose among 2-3 successors; the last layer consists of probabilistic
